@@ -69,6 +69,12 @@ def _make_objective(spec):
             z = (np.asarray(x, dtype=float) - lo) / (hi - lo)
             return float("inf") if z[0] > 0.85 else four(x)
 
+    elif kind == "slope":  # descends towards a corner of the box: every local search runs into the faces
+
+        def f(x):
+            z = (np.asarray(x, dtype=float) - lo) / (hi - lo)
+            return float(np.sum(z)) + 0.05 * four(x)
+
     elif kind == "jackpot":  # the best possible value (-inf when minimising) on a small part of the domain
 
         def f(x):
@@ -256,6 +262,8 @@ def rand_spec(rng, **force):
             # callback reports points one ulp away from the ones it evaluated (PRIMA's internal scaling), which
             # pyhms records as they come — see DESIGN.md §3; it has a slice of its own in the C02 check)
             L["method"] = str(rng.choice(["L-BFGS-B", "L-BFGS-B", "Nelder-Mead", "Powell", "BFGS", "CG", "SLSQP", "SLSQP"]))
+            if force.get("local_methods"):
+                L["method"] = str(force["local_methods"][int(L["maxiter"]) % len(force["local_methods"])])
         levels.append(L)
     limit = int(rng.integers(1, 5))
     sk = int(rng.integers(0, 7))
@@ -317,7 +325,7 @@ def rand_spec(rng, **force):
         "max_steps": int(force.get("max_steps", 12)),
         "precision_wrapper": (float(rng.choice([0.05, 0.5])) if rng.random() < 0.15 else None),
     }
-    for k in ("shared_problem", "level_shift", "cutoff", "stats_wrapper", "hibernation"):
+    for k in ("shared_problem", "level_shift", "cutoff", "stats_wrapper", "hibernation", "use_cache", "precision_wrapper"):
         if k in force:
             spec[k] = force[k]
     if gsc["kind"] == "SingularProblemPrecisionReached":
@@ -352,7 +360,7 @@ def build(spec, run, plain=None):
         else:
             r = CountingObjective(spec, level)
             fn = r if plain == "callable" else (lambda x, _r=r: _r(x))
-        fp = P.FunctionProblem(fn, bounds=bounds, maximize=spec["maximize"])
+        fp = P.FunctionProblem(fn, bounds=bounds, maximize=spec["maximize"], use_cache=bool(spec.get("use_cache")))
         p = fp
         if spec.get("cutoff"):
             p = P.EvalCutoffProblem(p, spec["cutoff"])
